@@ -13,6 +13,7 @@ func TestProp_Rewrite(t *testing.T)      { PartRW.Run(t) }
 func TestProp_Truncated(t *testing.T)    { PartTrunc.Run(t) }
 func TestProp_Arbitrary(t *testing.T)    { PartArb.Run(t) }
 func TestProp_Differential(t *testing.T) { PartDiff.Run(t) }
+func TestProp_Long(t *testing.T)         { PartLong.Run(t) }
 
 func TestReplay(t *testing.T) {
 	PartRT.Replay(t, 1)
@@ -20,6 +21,7 @@ func TestReplay(t *testing.T) {
 	PartTrunc.Replay(t, 1)
 	PartArb.Replay(t, 1)
 	PartDiff.Replay(t, 1)
+	PartLong.Replay(t, 1)
 }
 
 // FuzzDifferential is the byte-level, coverage-guided entry of part 4: the
